@@ -15,6 +15,9 @@
 (*   - ws.Dialer.OnStatusError: the reader replays status line + CRLF +    *)
 (*     everything that follows (dialer.go)                                 *)
 (*   - OnIntermediate / OnContinuation errors reach the caller             *)
+(*   - ws.State bit helpers, StatusCode.In / IsProtocolDefined             *)
+(*   - frame constructors (NewFrame, NewTextFrame, ...) and the one-call   *)
+(*     message writers wsutil.WriteMessage and its six shortcuts           *)
 (***************************************************************************)
 EXTENDS Naturals, Sequences, FiniteSets, TLC, Json, IOUtils
 
@@ -54,7 +57,33 @@ StatusErrorOk(r) == r.replayed = r.response /\ r.status = r.wantStatus /\ r.call
 
 CbErrOk(r) == r.err = "callback" /\ r.noLater
 
+\* ws.State is a bit set: 1 server, 2 client, 4 extended, 8 fragmented
+HasBit(s, b) == (s \div b) % 2 = 1
+StateBitsOk(r) ==
+    /\ r.is = HasBit(r.st, r.bit)
+    /\ r.set = (IF HasBit(r.st, r.bit) THEN r.st ELSE r.st + r.bit)
+    /\ r.clear = (IF HasBit(r.st, r.bit) THEN r.st - r.bit ELSE r.st)
+    /\ r.server = HasBit(r.st, 1) /\ r.client = HasBit(r.st, 2)
+    /\ r.extended = HasBit(r.st, 4) /\ r.fragmented = HasBit(r.st, 8)
+
+StatusDefOk(r) ==
+    LET c == r.code IN
+    /\ r.defined = (c \in 1000..1003 \cup 1005..1011 \cup {1015})
+    /\ r.inNotInUse = (c <= 999) /\ r.inProtocol = (c \in 1000..2999)
+    /\ r.inApp = (c \in 3000..3999) /\ r.inPrivate = (c \in 4000..4999)
+
+\* frame constructors: a final, unmasked frame of the named opcode around the caller's payload
+CtorOk(r) == r.op = r.wantOp /\ r.fin /\ r.rsv = 0 /\ ~r.masked /\ r.len = r.plen /\ r.payOK
+
+\* one-call message writers: exactly one final frame, masked iff client, payload intact on both sides
+WMsgOk(r) == /\ ~r.err /\ r.frames = 1 /\ r.rest = 0 /\ r.op = r.wantOp /\ r.fin /\ r.rsv = 0
+             /\ r.masked = r.client /\ r.payOK /\ r.callerIntact
+
 Ok(r) == CASE r.k = "rsv" -> RsvOk(r)
+           [] r.k = "state" -> StateBitsOk(r)
+           [] r.k = "statusdef" -> StatusDefOk(r)
+           [] r.k = "ctor" -> CtorOk(r)
+           [] r.k = "wmsg" -> WMsgOk(r)
            [] r.k = "select" -> SelectOk(r)
            [] r.k = "status" -> StatusOk(r)
            [] r.k = "callbacks" -> CallbacksOk(r)
